@@ -47,10 +47,15 @@ def run(run):
             shared = (rng.choice(kinds), rng.choice(["isTarget", "helper", "p"])) if case % 2 == 1 or rng.random() < 0.5 else None
             if case < 2:
                 nrules = max(nrules, 4)
+            if case == 1:
+                nrules = max(nrules, 7)         # always: three rules (4, 5, 6) around one shared helper name, the last one without a declaration
             for i in range(nrules):
                 sub = os.path.join(*[rng.choice(["a", "b", "c"]) for _ in range(rng.randint(1, 2))]) if rng.random() < 0.5 else ""
                 rel = os.path.join(sub, "r%02d_%s.cql" % (i, rng.choice(["x", "y", "z"])))
                 bad = rng.random() < 0.3
+                directed_helper = case == 1 and i in (4, 5, 6)
+                if directed_helper:
+                    bad = False
                 if case < 2 and i < 2:
                     # always: an empty and a blanks-only rule file that come first in their directory (the top directory in
                     # one ruleset, a sub-directory in the other), with rules after them
@@ -78,14 +83,14 @@ def run(run):
                     if case < 2 and i == 3:
                         # always: a rule without WHERE over a kind that has several entities on one line
                         q = QG.random_query(rng, kinds=[["variable_declaration", "method_invocation"][case]], values=proj.values, depth=0, n_preds=0, n_entities=1, where=False)
-                    elif shared and rng.random() < 0.6:
+                    elif shared and (directed_helper or rng.random() < 0.6):
                         q = QG.random_query(rng, kinds=[shared[0]], values=proj.values, depth=1, n_preds=1, n_entities=1)
                         old = q.preds[0].name
                         q.preds[0].name = shared[1]
                         call = ("call", shared[1], (q.from_items[0][1],))
                         rest = rename_calls(q.cond, old, shared[1]) if q.cond is not None else None
                         q.cond = rng.choice([call, QG.mk("not", call)] + ([QG.mk("and", call, rest), QG.mk("or", rest, call)] if rest is not None else []))
-                        if rng.random() < 0.35:
+                        if (rng.random() < 0.35 and not directed_helper) or (directed_helper and i == 6):
                             q.preds = []            # the helper is used but not declared in this file
                         QG.flatten(q)
                         stats["shared_helper_rules"] += 1
